@@ -115,6 +115,7 @@ class Ctx:
         self.samples = []
         self.violations = []
         self.excluded = 0
+        self.nontrivial_counted = 0
         self.exhaustive = None
         self.extra = {}
         self._nsamples = 0
@@ -130,8 +131,10 @@ class Ctx:
             self.samples.append(jsonable(sample if sample is not None else case))
             self._nsamples += 1
 
-    def count(self, n=1, classes=()):
+    def count(self, n=1, classes=(), nontrivial=0):
+        """n enumerated cases at once; `nontrivial` of them are non-trivial and distinct by construction."""
         self.evaluations += n
+        self.nontrivial_counted += nontrivial
         for c in classes:
             self.classes[c] += n
 
@@ -142,7 +145,7 @@ class Ctx:
         return {"kind": self.kind, "shard": self.shard, "evaluations": self.evaluations,
                 "nontrivial": sorted(self.nontrivial), "classes": dict(self.classes),
                 "samples": self.samples, "violations": self.violations, "excluded": self.excluded,
-                "exhaustive": self.exhaustive, "extra": self.extra}
+                "nontrivial_counted": self.nontrivial_counted, "exhaustive": self.exhaustive, "extra": self.extra}
 
 
 def hyp_settings(max_examples, stateful_steps=None, shrink=True):
@@ -413,18 +416,24 @@ def main(argv=None):
     per_kind = {}
     exhaustive_flags = []
     extra = {}
+    counted = 0
     for r in sorted(results, key=lambda r: (r["kind"], r["shard"])):
         nontrivial.update(r["kind"] + ":" + d for d in r["nontrivial"])
         classes.update(r["classes"])
         excluded += r["excluded"]
         pk = per_kind.setdefault(r["kind"], {"evaluations": 0, "nontrivial": 0, "wall_s": 0.0})
         pk["evaluations"] += r["evaluations"]
-        pk["nontrivial"] += len(r["nontrivial"])
+        pk["nontrivial"] += len(r["nontrivial"]) + r.get("nontrivial_counted", 0)
+        counted += r.get("nontrivial_counted", 0)
         pk["wall_s"] = round(max(pk["wall_s"], r["wall_s"]), 1)
         if r["exhaustive"] is not None:
             exhaustive_flags.append(bool(r["exhaustive"]))
         for k, v in (r.get("extra") or {}).items():
-            extra.setdefault(r["kind"], {})[k] = v
+            d = extra.setdefault(r["kind"], {})
+            if isinstance(v, (int, float)) and not isinstance(v, bool):
+                d[k] = max(d.get(k, v), v) if k.startswith("max") else d.get(k, 0) + v
+            else:
+                d[k] = v
         for s in r["samples"]:
             if sum(1 for x in samples if x["kind"] == r["kind"]) < 2 and len(samples) < 8:
                 samples.append({"kind": r["kind"], "case": s})
@@ -443,12 +452,12 @@ def main(argv=None):
         status = 1
 
     floor = getattr(mod, "NONTRIVIAL_FLOOR", {"quick": 2, "thorough": 2})[a.tier]
-    if status == 0 and not errors and not a.only and a.scale >= 1 and len(nontrivial) < floor:
-        errors.append("generator check: only %d non-trivial cases (floor %d)" % (len(nontrivial), floor))
+    if status == 0 and not errors and not a.only and a.scale >= 1 and len(nontrivial) + counted < floor:
+        errors.append("generator check: only %d non-trivial cases (floor %d)" % (len(nontrivial) + counted, floor))
 
     cov = {
         "evaluations": int(evaluations + nreg),
-        "distinct_nontrivial": int(len(nontrivial)),
+        "distinct_nontrivial": int(len(nontrivial) + counted),
         "rule": mod.RULE,
         "samples": samples if samples else [{"note": "no sample recorded"}],
         "classes": dict(sorted(classes.items())),
@@ -479,7 +488,7 @@ def main(argv=None):
             print("HARNESS-ERROR property=%s %s" % (pid, e))
         return 2
     print("OK property=%s tier=%s seed=%d evaluations=%d nontrivial=%d wall=%.1fs" %
-          (pid, a.tier, seed, evaluations + nreg, len(nontrivial), time.time() - t0))
+          (pid, a.tier, seed, evaluations + nreg, len(nontrivial) + counted, time.time() - t0))
     return 0
 
 
